@@ -188,6 +188,7 @@ struct Render {
     t: Rng,
     f: u32,
     spans: Vec<(Vec<PathSeg>, usize, usize, bool)>,
+    headers: Vec<(Vec<PathSeg>, usize)>,
 }
 
 fn is_bare(k: &str) -> bool {
@@ -581,8 +582,9 @@ impl Render {
         }
         self.out.push(']');
     }
-    fn header(&mut self, keys: &[String], aot: bool) {
+    fn header(&mut self, keys: &[String], aot: bool, path: &[PathSeg]) {
         self.indent();
+        self.headers.push((path.to_vec(), self.out.len()));
         self.out.push_str(if aot { "[[" } else { "[" });
         self.opt_ws();
         for (i, k) in keys.iter().enumerate() {
@@ -640,7 +642,9 @@ impl Render {
                 Node::Table(sub, _) => self.section(sub, &h, path, in_aot),
                 Node::Aot(ts) => {
                     for (i, sub) in ts.iter().enumerate() {
-                        self.header(&h, true);
+                        path.push(PathSeg::I(i));
+                        self.header(&h, true, path);
+                        path.pop();
                         path.push(PathSeg::I(i));
                         self.body(sub, &h, path, true);
                         path.pop();
@@ -667,11 +671,11 @@ impl Render {
             // sub-tables first, super-table afterwards
             let (secs, own): (Vec<_>, Vec<_>) = kvs.iter().cloned().partition(|(_, n)| matches!(n, Node::Table(_, TabLayout::Header) | Node::Aot(_)));
             self.body(&secs, hdr, path, in_aot);
-            self.header(hdr, false);
+            self.header(hdr, false, path);
             self.body(&own, hdr, path, in_aot);
             return;
         }
-        self.header(hdr, false);
+        self.header(hdr, false, path);
         self.body(kvs, hdr, path, in_aot);
     }
 }
@@ -721,7 +725,7 @@ fn flatten_inline(kvs: &[(String, Node)], prefix: &mut Vec<String>, path: &mut V
 }
 
 pub fn render(plan: &DocPlan) -> DocSpec {
-    let mut r = Render { out: String::new(), t: Rng::new(plan.trivia_seed), f: plan.features, spans: Vec::new() };
+    let mut r = Render { out: String::new(), t: Rng::new(plan.trivia_seed), f: plan.features, spans: Vec::new(), headers: Vec::new() };
     if r.on(F_BOM) {
         r.out.push('\u{feff}');
     }
@@ -733,7 +737,7 @@ pub fn render(plan: &DocPlan) -> DocSpec {
             r.out.pop();
         }
     }
-    DocSpec { text: r.out, tree: Some(plan.tree()), spans: r.spans, source: "docgen".into(), plan: Some(plan.clone()) }
+    DocSpec { text: r.out, tree: Some(plan.tree()), spans: r.spans, source: "docgen".into(), plan: Some(plan.clone()), headers: r.headers }
 }
 
 pub fn gen_doc(rng: &mut Rng) -> (DocSpec, Tree) {
@@ -741,7 +745,7 @@ pub fn gen_doc(rng: &mut Rng) -> (DocSpec, Tree) {
         let docs = corpus();
         let (name, text) = &docs[rng.below(docs.len())];
         let tree = toml_edit::ImDocument::parse(text.clone()).ok().and_then(|d| Tree::from_item(d.as_item())).unwrap_or(Tree::Tab(vec![]));
-        return (DocSpec { text: text.clone(), tree: None, spans: vec![], source: format!("toml-test:{name}"), plan: None }, tree);
+        return (DocSpec { text: text.clone(), tree: None, spans: vec![], source: format!("toml-test:{name}"), plan: None, headers: vec![] }, tree);
     }
     let plan = gen_plan(rng);
     let doc = render(&plan);
